@@ -59,9 +59,21 @@ def recordAdvance (offset : Int) (cur : Int) : Int :=
   let cur_v1 : Int := (Go.add64 offset 1)
   cur_v1
 
--- fun recordsBump: NOT TRANSLATED: no statement starting with "if len(messages) == 0" in (*partitionConsumer).parseRecords
+/-- generated from consumer.go (*partitionConsumer).parseRecords (fragment starting at `if len(messages) == 0`) -/
+def recordsBump (n : Int) (cur : Int) : Int :=
+  if (n = 0) then
+    let cur_v1 : Int := (Go.add64 cur 1)
+    cur_v1
+  else
+    cur
 
--- fun messagesBump: NOT TRANSLATED: no statement starting with "if len(messages) == 0" in (*partitionConsumer).parseMessages
+/-- generated from consumer.go (*partitionConsumer).parseMessages (fragment starting at `if len(messages) == 0`) -/
+def messagesBump (n : Int) (cur : Int) : Int :=
+  if (n = 0) then
+    let cur_v1 : Int := (Go.add64 cur 1)
+    cur_v1
+  else
+    cur
 
 /-- generated from consumer.go (*partitionConsumer).parseMessages (fragment starting at `if msg.Msg.Version >= 1`) -/
 def legacyRebase (ver : Int) (wrapOff : Int) (lastOff : Int) (offset : Int) (innerLA : Bool) (wrapLA : Bool) (ts : Int) (wrapTs : Int) : Int × Int :=
